@@ -314,6 +314,25 @@ pub fn run(args: &Args) -> i32 {
             bases.push((label.to_string(), b, label.starts_with("zipcrypto")));
         }
     }
+    // bases from another producer whose entries carry DOS stamps outside the calendar ranges (all-zero "no date", all-one
+    // words, seconds field 31, minute 63, hour 31, month 0 / 15, day 0): the re-emitted central records must still agree
+    // with the local headers that stay in place
+    {
+        use crate::reference::zipbuild::{build, ESpec, Spec};
+        let stamps: [(u16, u16); 11] = [(0, 0), (0xffff, 0xffff), (0x0021, 0x001f), (0x0021, 0x07e0), (0x0021, 0xf800), (0x01e1, 0), (0x0001, 0x6000), (0x0020, 0x6000), (0x5821, 0x6000), (0x5821, 0xbf7d), (0x5821, 0x001e)];
+        for (label, made_by, attr) in [("foreign-odd-stamps-unix", (3u16 << 8) | 20, 0o100644u32 << 16), ("foreign-odd-stamps-dos", 20u16, 0x20u32)] {
+            let spec = Spec {
+                entries: stamps.iter().enumerate().map(|(i, &(d, t))| ESpec { name: format!("stamp{i}").into_bytes(), method: if i % 2 == 0 { 0 } else { 8 }, content: format!("entry with DOS words {d:#06x} {t:#06x} ").repeat(3).into_bytes(), date: d, time: t, made_by, ext_attr: attr, ..Default::default() }).collect(),
+                comment: b"base comment".to_vec(),
+                ..Default::default()
+            };
+            let (b, _) = build(&spec);
+            if let Err(e) = zipparse::validate(&b, &zipparse::Opts::strict()) {
+                ctx.machinery(format!("the builder's own archive '{label}' fails the strict parser: {e}"));
+            }
+            bases.push((label.to_string(), b, false));
+        }
+    }
     ctx.bound("C_append", json!({"bases": bases.iter().map(|b| b.0.clone()).collect::<Vec<_>>(), "rounds": 1, "appended": "each composite, or nothing", "comment": ["keep", "shorter", "longer"], "terminators": 2}));
     let nb = bases.len() as u64;
     let s = par_for(nb * (n + 1) * 2 * 3, 4, |i, st| {
